@@ -16,6 +16,7 @@ the same for every member order.  `Optional[X]` must behave exactly as on a plai
 """
 from __future__ import annotations
 
+import datetime as _dt
 import enum
 import itertools
 import os
@@ -51,6 +52,30 @@ class IE(enum.IntEnum):
     X = 1
 
 
+class MyInt2(MyInt):          # int <- MyInt <- MyInt2
+    pass
+
+
+class MyStr2(MyStr):          # str <- MyStr <- MyStr2 <- MyStr3
+    pass
+
+
+class MyStr3(MyStr2):
+    pass
+
+
+class Stamp(_dt.datetime):    # date <- datetime <- Stamp
+    pass
+
+
+class _Mixin:
+    pass
+
+
+class Mixed(_Mixin, MyInt):   # int <- MyInt <- Mixed, and the first direct base is unrelated
+    pass
+
+
 @attrs.define
 class A:
     a: int
@@ -62,13 +87,20 @@ class B:
 
 
 NoneType = type(None)
-CLASSES = [NoneType, bool, int, float, str, bytes, MyStr, MyInt, A, B, dict, list, IE]
+CLASSES = [NoneType, bool, int, float, str, bytes, MyStr, MyInt, A, B, dict, list, IE,
+           MyInt2, MyStr2, MyStr3, _dt.date, _dt.datetime, Stamp, Mixed]
 CID = {c: i for i, c in enumerate(CLASSES)}
-CNAME = ["None", "bool", "int", "float", "str", "bytes", "MyStr", "MyInt", "A", "B", "dict", "list", "IE"]
-S_POOL = [0, 1, 2, 3, 4, 5, 6, 7]          # what S is drawn from
+CNAME = ["None", "bool", "int", "float", "str", "bytes", "MyStr", "MyInt", "A", "B", "dict", "list", "IE",
+         "MyInt2", "MyStr2", "MyStr3", "date", "datetime", "Stamp", "Mixed"]
+S_POOL = [0, 1, 2, 3, 4, 5, 6, 7]          # what a flat S is drawn from (hierarchies at most one level deep)
+DEEP_POOL = S_POOL + [12, 13, 14, 15, 16, 17, 18, 19]
 JSON_S = [4, 1, 2, 3, 0]                   # cattrs.preconf.json
+YAML_S = [4, 1, 2, 3, 0, 5, 17, 16]        # cattrs.preconf.pyyaml: …, bytes, datetime, date
+# inheritance chains of the universe, most general class first; `IE` is TWO levels below int (IE -> IntEnum -> int) and
+# the intermediate class is not in the universe at all
+CHAINS = [[2, 7, 13], [2, 7, 19], [4, 6, 14, 15], [16, 17, 18], [2, 12], [2, 1]]
 
-NT = {b: NewType(f"NT_{CNAME[b]}", CLASSES[b]) for b in (1, 2, 3, 4, 7, 8)}
+NT = {b: NewType(f"NT_{CNAME[b]}", CLASSES[b]) for b in (1, 2, 3, 4, 7, 8, 16)}
 NT2 = NewType("NT2", NT[2])                # NewType of a NewType: its supertype is not a class
 OTHERS = {0: NT2, 1: list[int]}
 
@@ -80,12 +112,16 @@ def abs_leaf(v):
         return (0, ("N",))
     if cl is bool:
         return (1, ("b", v))
-    if cl in (int, MyInt, IE):
+    if cl in (int, MyInt, IE, MyInt2, Mixed):
         return (CID[cl], ("i", int(v)))
     if cl is float:
         return (3, ("f", int(v * 2)))
-    if cl in (str, MyStr):
+    if cl in (str, MyStr, MyStr2, MyStr3):
         return (CID[cl], ("s", str(v)))
+    if cl in (_dt.date, _dt.datetime, Stamp):
+        # no two of the date-like probes are `==` (a date never equals a datetime; the datetimes differ in value), and
+        # none can be a Literal value: an opaque object per probe decides `==`
+        return (CID[cl], ("o", 100 + [d.__class__ for d in DATELIKE].index(cl)))
     if cl is bytes:
         return (5, ("y", v.hex()))
     if cl is A:
@@ -104,8 +140,10 @@ def val_sx(v):
     return "(%d %s)" % (c, terms.obj_sx(o))
 
 
+DATELIKE = [_dt.date(2020, 1, 2), _dt.datetime(2020, 1, 2, 3, 4), Stamp(2021, 5, 6, 7, 8)]
 PROBES = [None, True, False, 0, 1, 2, -1, 0.0, 1.0, 2.5, "a", "", "1", "0", b"a", b"", MyStr("a"), MyStr(""),
-          MyInt(0), MyInt(1), MyInt(5), IE.X, IE.Z, A(1), B("x"), {"a": 1}, {"b": "x"}, {}, [1]]
+          MyInt(0), MyInt(1), MyInt(5), IE.X, IE.Z, A(1), B("x"), {"a": 1}, {"b": "x"}, {}, [1],
+          MyInt2(0), MyInt2(7), Mixed(1), MyStr2("a"), MyStr3(""), MyStr3("a")] + DATELIKE
 PROBES_SX = "(vals " + " ".join(val_sx(v) for v in PROBES) + ")"
 LIT_POOL = [0, 1, 2, True, False, "a", "", "1", b"a", None, IE.X]
 
@@ -316,6 +354,8 @@ def check_union(chk, drv, uc, orders, corr_fail, verbose=False):
                 corr_fail.append((case, "PASS(app)", str(i_app), str(m_app), lab))
                 return
         chk.note("applicable:%s" % m_app, "optional:%s" % is_optional, "members:%d" % len(members))
+        if perm == orders[0]:
+            chk.note("S:deepest-configured-descendant-of-a-configured-class:%d-levels" % s_depth(S_ids))
         obs_row = []
         for vi, v in enumerate(PROBES):
             ob = observe(conv, U, v)
@@ -336,6 +376,10 @@ def check_union(chk, drv, uc, orders, corr_fail, verbose=False):
                       sample={"case": plab, "impl": ob[0], "model": terms_of(m_res[vi])})
             kind = sp if isinstance(sp, str) else "spill"
             chk.note("spec:" + kind, "probe:" + v.__class__.__name__)
+            if kind == "same" and v.__class__ in S_classes:
+                d = accept_depth(S_classes, members, real, v.__class__)
+                if d is not None and d >= 1:
+                    chk.note("accepted-as-configured-subclass:%d-level%s-below-the-member" % (d, "" if d == 1 else "s"))
             if verbose:
                 print("  v=%r:%s impl=%s spec=%s model=%s" % (v, v.__class__.__name__, ob[0], sp, terms_of(m_res[vi])))
             # ---- oracle
@@ -381,6 +425,36 @@ def check_union(chk, drv, uc, orders, corr_fail, verbose=False):
             return
 
 
+def mro_distance(cl, base):
+    """number of inheritance steps on the shortest path from `cl` up to `base` (None: not a subclass)"""
+    if cl is base:
+        return 0
+    best = None
+    for b in cl.__bases__:
+        if issubclass(b, base):
+            d = mro_distance(b, base)
+            if d is not None and (best is None or d + 1 < best):
+                best = d + 1
+    return best
+
+
+def s_depth(S_ids):
+    ds = [mro_distance(CLASSES[a], CLASSES[c]) for a in S_ids for c in S_ids if a != c and issubclass(CLASSES[a], CLASSES[c])]
+    return max(ds) if ds else 0
+
+
+def accept_depth(S_classes, members, real, cl):
+    """how far below the nearest accepting member of U the (configured) class of the value is"""
+    ds = []
+    for m, t in zip(members, real):
+        if m[0] == "lit":
+            continue
+        base = getattr(t, "__supertype__", t)
+        if base in S_classes and isinstance(base, type) and issubclass(cl, base):
+            ds.append(mro_distance(cl, base))
+    return min(ds) if ds else None
+
+
 def terms_of(px):
     if isinstance(px, str):
         return px
@@ -407,7 +481,7 @@ def gen_member(rng, S):
     r = rng.random()
     if r < 0.42:
         # mostly configured classes (otherwise nearly every union has a spill-over and nothing is ever rejected)
-        return ("c", rng.choice(S) if rng.random() < 0.8 else rng.choice([0, 1, 2, 3, 4, 5, 6, 7]))
+        return ("c", rng.choice(S) if rng.random() < 0.8 else rng.choice(S_POOL if rng.random() < 0.7 else DEEP_POOL))
     if r < 0.52:
         return ("c", rng.choice([8, 9]))
     if r < 0.80:
@@ -424,16 +498,42 @@ def mem_key(m):
     return m
 
 
+def gen_S(rng):
+    """-> (configured set, chain or None).  A third of the sets hold a class TWO OR MORE levels below another of their
+    members (the intermediate classes configured or not): "a configured subclass of a member counts" is a statement about
+    `issubclass`, not about direct bases."""
+    r = rng.random()
+    if r < 0.25:
+        return list(JSON_S), None
+    if r < 0.31:
+        return list(YAML_S) + ([18] if rng.random() < 0.5 else []), ([16, 17, 18] if rng.random() < 0.5 else None)
+    if r < 0.64:
+        chain = rng.choice(CHAINS)
+        S = [chain[0], chain[-1]] + [c for c in chain[1:-1] if rng.random() < 0.4]
+        if rng.random() < 0.3:      # a second hierarchy next to it
+            other = rng.choice(CHAINS)
+            S += [c for c in (other[0], other[-1]) if c not in S]
+        S += [c for c in rng.sample(DEEP_POOL, rng.randint(0, 3)) if c not in S]
+        rng.shuffle(S)
+        return S, chain
+    if r < 0.72:
+        return rng.sample(DEEP_POOL, rng.randint(2, 7)), None
+    return rng.sample(S_POOL, rng.randint(2, 6)), None
+
+
 def gen_union(rng):
     n = rng.choice([2, 3, 3, 4, 4, 5])
-    if rng.random() < 0.3:
-        S = list(JSON_S)
-    else:
-        S = rng.sample(S_POOL, rng.randint(2, 6))
+    S, chain = gen_S(rng)
     ms = []
     keys = set()
     n_spill = 0
     tries = 0
+    if chain is not None and rng.random() < 0.7:
+        # the union names the ANCESTOR (as a class or through a NewType); whether it also names descendants is left
+        # to the random members below
+        top = chain[0]
+        ms.append(("nt", top) if top in NT and rng.random() < 0.3 else ("c", top))
+        keys.add(mem_key(ms[0]))
     while len(ms) < n and tries < 50:
         tries += 1
         m = gen_member(rng, S)
@@ -450,7 +550,8 @@ def gen_union(rng):
 
 THOROUGH_ALPHABET = [("c", 2), ("c", 1), ("c", 4), ("c", 0), ("c", 7), ("nt", 2), ("c", 8),
                      ("lit", (0, True)), ("lit", (1, "a")), ("lit", (False,))]
-THOROUGH_S = [JSON_S, [2, 5], [2, 1], [4, 7, 2], [1, 0], [2, 7, 1, 4, 0, 3, 5, 6]]
+THOROUGH_S = [JSON_S, [2, 5], [2, 1], [4, 7, 2], [1, 0], [2, 7, 1, 4, 0, 3, 5, 6],
+              [2, 12, 1], [2, 7, 13, 19], [2, 13], [4, 15, 2], [4, 6, 14, 15]]
 
 
 def run(chk: framework.Check):
@@ -475,6 +576,21 @@ def run(chk: framework.Check):
             UnionCase(JSON_S, [("c", 8), ("c", 9)]),
             UnionCase([2, 5], [("c", 1), ("c", 4), ("c", 8)]),
             UnionCase(JSON_S, [("o", 0), ("c", 2), ("nt", 8)]),
+            # configured classes two or more levels below a member of U (intermediate classes configured or not)
+            UnionCase([2, 12], [("c", 2), ("c", 4)]),
+            UnionCase([2, 7, 13], [("c", 2), ("c", 8)]),
+            UnionCase([2, 13, 4], [("nt", 2), ("c", 4)]),
+            UnionCase([4, 15], [("c", 4), ("c", 2)]),
+            UnionCase([4, 6, 14, 15], [("c", 4), ("lit", (1,))]),
+            UnionCase(YAML_S + [18], [("c", 16), ("c", 4)]),
+            UnionCase([16, 18, 4], [("nt", 16), ("c", 4)]),
+            UnionCase([2, 19], [("c", 2), ("c", 0), ("c", 9)]),
+            UnionCase([7, 13, 19, 2], [("c", 7), ("c", 4)]),
+            # unions whose only configured ingredients are literal values
+            UnionCase(JSON_S, [("lit", ("a",)), ("c", 8)]),
+            UnionCase(JSON_S, [("lit", ("a", "1")), ("lit", (1, 2))]),
+            UnionCase(JSON_S, [("lit", ("a",)), ("o", 1)]),
+            UnionCase([2, 5], [("lit", (1,)), ("c", 4), ("c", 0)]),
         ]
         cases = core + [gen_union(rng) for _ in range(250)]
     else:
@@ -496,8 +612,13 @@ def run(chk: framework.Check):
         for case, op, ri, rm, lab in corr_fail[:5]:
             chk.violation(f"correspondence corr:C15:{op} broken (theorems C15_* no longer tied to the code): impl={ri} model={rm} [{lab}]",
                           case, found_input=False)
+    chk.extra["hierarchies"] = ("configured sets: json's 25%, pyyaml's (date/datetime, +Stamp) 6%, built around an inheritance "
+                                "chain of the universe (top and bottom configured, intermediates 40% each; chains int<-MyInt<-MyInt2, "
+                                "int<-MyInt<-Mixed(_Mixin, MyInt), str<-MyStr<-MyStr2<-MyStr3, date<-datetime<-Stamp, int<-IntEnum<-IE, "
+                                "int<-bool) 33%, random over all 16 configurable classes 8%, flat 28%; see the histogram keys "
+                                "'accepted-as-configured-subclass:*' and 'S:deepest-*'")
     chk.extra["rule"] = ("distinct (S, ordered union, probe) triples on applicable unions; S from {str,bool,int,float,NoneType,bytes,"
-                         "MyStr,MyInt}; unions of 2-5 members over classes, literals (look-alike clusters 45%%), NewTypes, 0-2 spill-over "
+                         "MyStr,MyInt,IE,MyInt2,MyStr2,MyStr3,date,datetime,Stamp,Mixed}; unions of 2-5 members over classes, literals (look-alike clusters 45%%), NewTypes, 0-2 spill-over "
                          "members; every member order on a fresh converter; fixed battery of %d probes" % len(PROBES))
     chk.extra["probe_battery"] = [repr(v) + ":" + v.__class__.__name__ for v in PROBES]
     if chk.tier != "quick":
